@@ -17,6 +17,7 @@ def err : Gen.Err → Seq.Err
   | .duplication => .duplication
   | .typeError => .valueError
   | .structError => .valueError
+  | .fuel => .valueError
 
 def lift {α : Type} : Except Gen.Err α → Except Seq.Err α
   | .ok v => .ok v
